@@ -144,8 +144,15 @@ fn punctuation_scan(r: &mut Run) -> Result<(), MachineryError> {
         for width in 2..=8usize {
             for (an, alg) in algs() {
                 for le in [LineEnding::LF, LineEnding::CRLF] {
+                  for variant in 0..2 {
                     cx.eval();
-                    let (text, ii, si): (String, String, String) = if pc.contains(&c) { ("ab cd ef".to_string(), format!("{c} "), format!("{c}{c}")) } else { (format!("ab {c}x cd {c}"), "> ".to_string(), "  ".to_string()) };
+                    // variant 1: two words only, so that the word beginning with c opens the *last*
+                    // line and no later line can repair a wrongly detected indent
+                    let (text, ii, si): (String, String, String) = if pc.contains(&c) {
+                        (if variant == 0 { "ab cd ef".to_string() } else { "ab cd".to_string() }, format!("{c} "), format!("{c}{c}"))
+                    } else {
+                        (if variant == 0 { format!("ab {c}x cd {c}") } else { format!("ab {c}x") }, "> ".to_string(), "  ".to_string())
+                    };
                     cx.set_input(&text);
                     let d = || format!("char={:?} width={} algorithm={} ending={:?} initial_indent={:?} subsequent_indent={:?}", c, width, an, le, ii, si);
                     let res = cx.guard(|| {
@@ -162,6 +169,7 @@ fn punctuation_scan(r: &mut Run) -> Result<(), MachineryError> {
                         }
                         cx.check("C15-roundtrip(prefix-character-scan)", ok, &d, &|| json!({"filled": filled, "unfilled_text": t, "initial_indent": uii, "subsequent_indent": usi}));
                     }
+                  }
                 }
             }
         }
